@@ -143,7 +143,7 @@ def replay_stress(ctx, rng, case, mode, big):
     return True
 
 
-def replay_case(ctx, rng, case, k, key, canonical_first, alive=None, ci=0):
+def replay_case(ctx, rng, case, k, key, canonical_first, alive=None, ci=0, mut_every=5):
     """k concretizations.  canonical_first: the first one is the canonical minimal form; otherwise the
     canonical form is only tried after a failure, to attribute it to structure or to payload"""
     classes = case["t"]
@@ -152,19 +152,19 @@ def replay_case(ctx, rng, case, k, key, canonical_first, alive=None, ci=0):
     for j in range(k):
         canonical = canonical_first and j == 0
         lines, contents = cc.conc_text(rng, classes, canonical=canonical, empty_blank=True)
-        # the text arrives in every documented input form in turn; every 5th case the Version objects handed
+        # the text arrives in every documented input form in turn; every 5th case (thorough: 25th) the Version objects handed
         # out are edited in place afterwards and the text is parsed again
         form = cc.FORMS[(ci + j) % len(cc.FORMS)]
         msg = cc.c04_check(lines, contents, struct, alive if j == k - 1 else None, form=form,
-                           mutate=(ci + j) if (ci % 5 == 0 and j == k - 1) else None)
+                           mutate=(ci + j) if (ci % mut_every == 0 and j == k - 1) else None)
         ctx.case_seen(key, nontrivial)
         if msg:
             if not canonical:
                 cl, cc_ = cc.conc_text(rng, classes, canonical=True, empty_blank=True)
-                m2 = cc.c04_check(cl, cc_, struct, form=form, mutate=(ci + j) if ci % 5 == 0 else None)
+                m2 = cc.c04_check(cl, cc_, struct, form=form, mutate=(ci + j) if ci % mut_every == 0 else None)
                 msg += " [canonical concretization of the same structure: %s]" % ("fails too: " + m2 if m2 else "passes, so the payload matters")
             ctx.violation({"kind": "case", "classes": classes, "lines": lines, "contents": contents, "struct": struct, "form": form,
-                           "mutate": (ci + j) if (ci % 5 == 0 and j == k - 1) else None}, msg)
+                           "mutate": (ci + j) if (ci % mut_every == 0 and j == k - 1) else None}, msg)
             return False
     return True
 
@@ -180,7 +180,7 @@ def run(ctx):
         "trusted: TLC, the concretizer (states what it wrote), the independent line classifier, the projections",
     ]
     # (b) code -> spec: record first (the recorder does not depend on TLC)
-    ntr, maxlines = (60, 40) if quick else (400, 60)
+    ntr, maxlines = (60, 40) if quick else (300, 60)
     traces = []
     for i in range(ntr):
         _cls, lines, _ = cc.gen_wellformed(rng, rng.choice([6, 12, 25, maxlines]))
@@ -226,7 +226,7 @@ def run(ctx):
     big_at = {len(cases) // 3, 2 * len(cases) // 3} if quick else set(range(0, len(cases), max(1, len(cases) // 8)))
     for ci, c in enumerate(cases):
         if not replay_case(ctx, rng, c, k, "case:" + "".join(x[0] for x in c["t"]), canonical_first=quick,
-                           alive=alive if ci % every == 0 else None, ci=ci):
+                           alive=alive if ci % every == 0 else None, ci=ci, mut_every=5 if quick else 25):
             if len(ctx.violations) >= 5:
                 break
         n += 1
